@@ -105,6 +105,9 @@ class Sym:
         self.uninterp = uninterp    # callee name -> constructor of a fresh symbolic value
         self.decls = []
         self.n = 0
+        self.side = []          # range constraints of havoc'ed values
+        self.havoc_mode = False
+        self.asserts = []       # (path condition, failing condition, message) of MIR assert terminators
 
     def fresh(self, sort, hint="v"):
         self.n += 1
@@ -124,11 +127,40 @@ def enum_variants(sym, ty):
     return None
 
 
+INT_RANGES = {"usize": (0, 2**64 - 1), "u64": (0, 2**64 - 1), "u32": (0, 2**32 - 1), "u16": (0, 2**16 - 1), "u8": (0, 255),
+              "isize": (-2**63, 2**63 - 1), "i64": (-2**63, 2**63 - 1), "i32": (-2**31, 2**31 - 1), "i16": (-2**15, 2**15 - 1),
+              "i8": (-128, 127)}
+
+
+def havoc(sym, ty=None):
+    """fresh unconstrained value (havoc mode): int of the local's type if known, otherwise opaque"""
+    if ty in INT_RANGES:
+        v = sym.fresh("Int", "hv")
+        lo, hi = INT_RANGES[ty]
+        sym.side.append(f"(and (<= {int_lit(lo)} {v}) (<= {v} {int_lit(hi)}))")
+        return ("int", v)
+    if ty == "bool":
+        return ("bool", sym.fresh("Bool", "hb"))
+    return ("opaque",)
+
+
 def eval_operand(sym, env, locs, op):
+    if getattr(sym, "havoc_mode", False):
+        try:
+            return _eval_operand(sym, env, locs, op)
+        except Untranslatable:
+            return ("opaque",)
+    return _eval_operand(sym, env, locs, op)
+
+
+def _eval_operand(sym, env, locs, op):
     op = op.strip()
     m = re.match(r"^(?:copy|move) (.*)$", op)
     if m:
         return eval_place(sym, env, locs, m.group(1).strip())
+    m = re.match(r"^\((_\d+)\.(\d+): (\w+)\)$", op)
+    if m:
+        return eval_place(sym, env, locs, op)
     m = re.match(r"^const (-?\d+)_[iu](?:8|16|32|64|size)$", op)
     if m:
         return ("int", int_lit(int(m.group(1))))
@@ -154,8 +186,18 @@ def eval_place(sym, env, locs, place):
         if m.group(2) not in base[3]:
             raise Untranslatable(f"no payload for variant {m.group(2)}")
         return base[3][m.group(2)]
+    m = re.match(r"^\((_\d+)\.(\d+): (\w+)\)$", place)      # tuple field, e.g. (_28.1: bool)
+    if m:
+        base = env.get(m.group(1))
+        if base and base[0] == "tuple":
+            return base[1][int(m.group(2))]
+        if getattr(sym, "havoc_mode", False):
+            return havoc(sym, m.group(3))
+        raise Untranslatable(f"tuple field of non-tuple {place}")
     if re.match(r"^_\d+$", place):
         if place not in env:
+            if getattr(sym, "havoc_mode", False):
+                return havoc(sym, locs.get(place))
             raise Untranslatable(f"use of unassigned local {place}")
         return env[place]
     raise Untranslatable(f"place {place!r}")
@@ -175,6 +217,19 @@ def eval_rvalue(sym, env, locs, dst, rv):
         if m.group(1) == "Ne":
             return ("bool", f"(not (= {a[1]} {b[1]}))")
         return ("bool", f"({BINOPS[m.group(1)]} {a[1]} {b[1]})")
+    m = re.match(r"^(Add|Sub|Mul)WithOverflow\((.*), (.*)\)$", rv)
+    if m:
+        a = eval_operand(sym, env, locs, m.group(2))
+        b = eval_operand(sym, env, locs, m.group(3))
+        ty = locs.get(dst, "")
+        tm = re.match(r"^\((\w+), bool\)$", ty)
+        if a[0] == "int" and b[0] == "int" and tm and tm.group(1) in INT_RANGES:
+            lo, hi = INT_RANGES[tm.group(1)]
+            opn = {"Add": "+", "Sub": "-", "Mul": "*"}[m.group(1)]
+            exact = f"({opn} {a[1]} {b[1]})"
+            ovf = f"(or (< {exact} {int_lit(lo)}) (> {exact} {int_lit(hi)}))"
+            return ("tuple", [("int", exact), ("bool", ovf)])
+        raise Untranslatable("checked arithmetic on non-integers")
     m = re.match(r"^Not\((.*)\)$", rv)
     if m:
         a = eval_operand(sym, env, locs, m.group(1))
@@ -185,6 +240,8 @@ def eval_rvalue(sym, env, locs, dst, rv):
     if m:
         v = eval_place(sym, env, locs, m.group(1))
         if v[0] != "enum":
+            if getattr(sym, "havoc_mode", False):
+                return ("int", sym.fresh("Int", "disc"))
             raise Untranslatable("discriminant of non-enum")
         return ("int", v[2])
     # Result constructors
@@ -207,9 +264,19 @@ def paths(sym, header, locs, blocks, args):
     ('return', value) | ('panic', msg) | ('unreachable',)."""
     out = []
 
-    def run(bb, env, pc, depth):
-        if depth > 200:
-            raise Untranslatable("CFG too deep / loop")
+    def run(bb, env, pc, depth, seen_bbs=frozenset()):
+        if depth > 400 or len(out) > 20000:
+            raise Untranslatable("CFG too deep / too many paths")
+        if sym.havoc_mode:
+            if bb in seen_bbs:
+                out.append((pc, ("cut-loop",)))     # bounded: every block at most once per path
+                return
+            seen_bbs = seen_bbs | {bb}
+            _run = run
+            def run_(b2, e2, p2, d2):
+                return _run(b2, e2, p2, d2, seen_bbs)
+        else:
+            run_ = lambda b2, e2, p2, d2: run(b2, e2, p2, d2)
         env = dict(env)
         for st in blocks[bb]:
             st = st.rstrip(";")
@@ -223,7 +290,7 @@ def paths(sym, header, locs, blocks, args):
                 return
             m = re.match(r"^goto -> (bb\d+)$", st)
             if m:
-                return run(m.group(1), env, pc, depth + 1)
+                return run_(m.group(1), env, pc, depth + 1)
             m = re.match(r"^switchInt\((.*)\) -> \[(.*)\]$", st)
             if m:
                 v = eval_operand(sym, env, locs, m.group(1))
@@ -237,7 +304,7 @@ def paths(sym, header, locs, blocks, args):
                     k, tgt = [x.strip() for x in a.split(":")]
                     if k == "otherwise":
                         cond = "true" if not seen else "(and " + " ".join(f"(not {c})" for c in seen) + ")"
-                        run(tgt, env, pc + [cond], depth + 1)
+                        run_(tgt, env, pc + [cond], depth + 1)
                     else:
                         kv = int(k)
                         if v[0] == "bool":
@@ -247,7 +314,7 @@ def paths(sym, header, locs, blocks, args):
                                 kv -= 256
                             c = f"(= {v[1]} {int_lit(kv)})"
                         seen.append(c)
-                        run(tgt, env, pc + [c], depth + 1)
+                        run_(tgt, env, pc + [c], depth + 1)
                 return
             m = re.match(r"^(_\d+) = (?:core::panicking::)?panic(?:_\w+)?\((.*)\) -> .*$", st)
             if m:
@@ -256,14 +323,45 @@ def paths(sym, header, locs, blocks, args):
             m = re.match(r"^(_\d+) = ([\w:<>]+)\((.*)\) -> \[return: (bb\d+), unwind .*\]$", st)
             if m:
                 callee = m.group(2).split("::")[-1]
-                if callee not in sym.uninterp:
+                if callee not in sym.uninterp and not sym.havoc_mode:
                     raise Untranslatable(f"call to {m.group(2)} (function is no longer call-free)")
-                env[m.group(1)] = sym.uninterp[callee](sym)
-                return run(m.group(4), env, pc, depth + 1)
+                if callee in sym.uninterp:
+                    env[m.group(1)] = sym.uninterp[callee](sym)
+                    return run_(m.group(4), env, pc, depth + 1)
+            m = re.match(r"^assert\((!?)(?:move |copy )?(.*?), \"(.*?)\".*\) -> \[success: (bb\d+), unwind.*\]$", st)
+            if m:
+                c = eval_operand(sym, env, locs, m.group(2) if m.group(2).startswith("(") else "copy " + m.group(2))
+                if c[0] != "bool":
+                    c = havoc(sym, "bool")
+                holds = f"(not {c[1]})" if m.group(1) == "!" else c[1]
+                sym.asserts.append((list(pc), f"(not {holds})", m.group(3), bb))
+                return run_(m.group(4), env, pc + [holds], depth + 1)
+            if sym.havoc_mode:
+                m = re.match(r"^drop\(.*\) -> \[return: (bb\d+), unwind.*\]$", st)
+                if m:
+                    return run_(m.group(1), env, pc, depth + 1)
+                m = re.match(r"^(_\d+) = .*\) -> \[return: (bb\d+), unwind.*\]$", st)
+                if m:                                   # any call: havoc the result, assume it returns
+                    env[m.group(1)] = havoc(sym, locs.get(m.group(1)))
+                    return run_(m.group(2), env, pc, depth + 1)
+                if re.match(r"^.* -> \[return: (bb\d+), unwind.*\]$", st):
+                    m = re.match(r"^.* -> \[return: (bb\d+), unwind.*\]$", st)
+                    return run_(m.group(1), env, pc, depth + 1)
+                if re.match(r"^.*\) -> unwind .*$", st) or st.startswith("resume") or st.startswith("unwind"):
+                    out.append((pc, ("diverge",)))
+                    return
             m = re.match(r"^(_\d+) = (.*)$", st)
             if m:
-                env[m.group(1)] = eval_rvalue(sym, env, locs, m.group(1), m.group(2))
+                if sym.havoc_mode:
+                    try:
+                        env[m.group(1)] = eval_rvalue(sym, env, locs, m.group(1), m.group(2))
+                    except Untranslatable:
+                        env[m.group(1)] = havoc(sym, locs.get(m.group(1)))
+                else:
+                    env[m.group(1)] = eval_rvalue(sym, env, locs, m.group(1), m.group(2))
                 continue
+            if sym.havoc_mode:
+                continue                                # e.g. stores through projections: ignored (havoc on read)
             raise Untranslatable(f"statement {st!r}")
         raise Untranslatable(f"block {bb} has no terminator")
 
@@ -324,7 +422,7 @@ class Obligations:
             # vacuity witness: a deliberately false goal must come back refuted (sat), else the encoding is vacuous
             st = "witness-ok" if st == "refuted" else "inconclusive"
         self.items.append({"obligation": name, "describe": describe, "verdicts": verdicts, "status": st,
-                           "model": r["z3"][1][:400] if st == "refuted" else None})
+                           "model": r["z3"][1][:1500] if st == "refuted" else None})
         return st
 
 
@@ -504,8 +602,85 @@ def check_compare_tables(mir, ob):
     return fns
 
 
+
+# ------------------------------------------------------------------------------------------------
+# K21: arithmetic-overflow sites (havoc mode): can a checked `+ - *` assert fail for some argument values,
+# assuming every callee returns (an arbitrary value)? A satisfiable site is only a CANDIDATE: it is reported
+# as a violation only after a native replay through the real CLI reproduces the panic.
+# ------------------------------------------------------------------------------------------------
+def overflow_candidates(mir, fn_re, int_args, ob, label):
+    """int_args: {local: type} - the integer arguments made symbolic (full range of their type = the
+    documented domain; Location.line / .col are 0-based and may be 0)."""
+    text = find_fn(mir, fn_re)
+    header, locs, blocks = parse_fn(text)
+    sym = Sym(consts_of(mir), {}, {})
+    sym.havoc_mode = True
+    args = {}
+    for a, ty in int_args.items():
+        args[a] = havoc(sym, ty)
+    pths = paths(sym, header, locs, blocks, args)
+    sites = {}
+    for pc, fail, msg, bb in sym.asserts:
+        if "overflow" not in msg:
+            continue
+        sites.setdefault((bb, msg), []).append(f"(and {pc_term(pc)} {fail})")
+    cands = []
+    for (bb, msg), conds in sorted(sites.items()):
+        st = ob.check(f"{label}/{bb}/no-overflow", sym.decls, sym.side, "(or " + " ".join(conds) + ")",
+                      f"{label} {bb}: `{msg}` cannot fail for any argument value (callees havoc'ed, loops cut at one iteration)")
+        if st == "refuted":
+            cands.append(ob.items[-1])
+    return cands, len(pths), {a: args[a][1] for a in args}
+
+
+EMIT_CODE_RULE = "rule t { Resources.*.Properties.x == 2 }\n"
+
+
+def replay_emit_code(src, line_value):
+    """native replay: a failing clause whose value sits on 0-based line `line_value` of the data file makes the
+    console reporter call emit_code(line_value). Build the real CLI from the scratch copy and run it."""
+    import tempfile
+    env = dict(os.environ)
+    env["CARGO_NET_OFFLINE"] = "true"
+    env["CARGO_TARGET_DIR"] = os.path.join(os.path.dirname(src), "native-target")
+    env.pop("RUSTUP_TOOLCHAIN", None)
+    b = subprocess.run(["cargo", "build", "--offline", "-p", "cfn-guard", "--bin", "cfn-guard"], cwd=src, env=env,
+                       stdout=subprocess.PIPE, stderr=subprocess.STDOUT, text=True, timeout=1800)
+    exe = os.path.join(env["CARGO_TARGET_DIR"], "debug", "cfn-guard")
+    if b.returncode != 0 or not os.path.exists(exe):
+        return {"reproduced": False, "note": "native build failed", "tail": b.stdout[-400:]}
+    d = tempfile.mkdtemp(prefix="cfnverif_replay_")
+    try:
+        doc = "\n" * int(line_value) + '{"Resources":{"a":{"Type":"AWS::S3::Bucket","Properties":{"x":1}}}}\n'
+        open(os.path.join(d, "d.json"), "w").write(doc)
+        open(os.path.join(d, "r.guard"), "w").write(EMIT_CODE_RULE)
+        p = subprocess.run([exe, "validate", "-r", os.path.join(d, "r.guard"), "-d", os.path.join(d, "d.json")],
+                           stdout=subprocess.PIPE, stderr=subprocess.STDOUT, text=True, timeout=120)
+        pan = [l for l in p.stdout.splitlines() if "panicked at" in l or "overflow" in l][:3]
+        return {"reproduced": p.returncode == 101 and any("overflow" in l for l in pan), "exit": p.returncode,
+                "panic": pan, "input": {"data_file": doc, "rules_file": EMIT_CODE_RULE,
+                                        "cmd": "cfn-guard validate -r r.guard -d d.json"}}
+    finally:
+        shutil.rmtree(d, ignore_errors=True)
+
+
+def check_emit_code(mir, src, ob):
+    cands, npaths, argterms = overflow_candidates(
+        mir, r"cfn::single_line::<impl at guard/src/commands/reporters/validate/cfn\.rs:\d+:\d+: \d+:\d+>::emit_code",
+        {"_3": "usize"}, ob, "cfn::emit_code")
+    for c in cands:
+        name = argterms["_3"].strip("|")
+        m = re.search(r"define-fun \|?" + re.escape(name) + r"\|? \(\) Int\s+(\d+)", c.get("model") or "")
+        line = int(m.group(1)) if m else 0
+        c["counterexample"] = {"line (0-based, from the data file location of the failing value)": line}
+        c["native_replay"] = replay_emit_code(src, line)
+        c["reproduced"] = c["native_replay"]["reproduced"]
+    return ["commands::reporters::validate::cfn::single_line::ErrWriter::emit_code"], npaths
+
+
 PROP_KERNELS = {
     "C06": ["exit"], "C16": ["exit"], "C09": ["status"], "C02": ["status"], "C04": ["status"], "C13": ["cmp"],
+    "C08": ["emit_code"],
 }
 
 
@@ -525,6 +700,9 @@ def run_for_property(prop, src, tier):
                 fns += check_status_and(mir, src, ob)
             elif k == "cmp":
                 fns += check_compare_tables(mir, ob)
+            elif k == "emit_code":
+                f, _n = check_emit_code(mir, src, ob)
+                fns += f
     except Untranslatable as e:
         return {"status": "inconclusive", "reason": "not translatable: " + str(e), "functions": fns,
                 "queries": len(ob.items) * len(SOLVERS), "obligations_discharged": 0, "obligations": ob.items,
